@@ -247,6 +247,9 @@ def rule_caller_side(ctx):
 
 
 def run(ctx):
+    # "... with its URI, args and kwargs": what the exception carried must also survive ERROR.marshal()
+    from .c03 import rule_payload_marshal_cells
+    rule_payload_marshal_cells(ctx, "C18.5-error-message-carries-args-and-kwargs", only=("Error",))
     rule_to_error(ctx)
     rule_from_error(ctx)
     rule_registries(ctx)
